@@ -1,3 +1,4 @@
 //! Shared generators (proptest strategies).
+pub mod doc_types;
 pub mod soup;
 pub mod util;
